@@ -196,3 +196,194 @@ impl Sub for Scale {
         Ok(())
     }
 }
+
+// ---------------------------------------------------------------------------------------------
+// Homograph counts around 2^8 and 2^16 (posting lists): used by C05 (round trip) and C11 (rows)
+
+#[derive(Clone, Debug, Serialize, Deserialize, PartialEq, Eq, Hash)]
+pub struct HomographCase {
+    /// rows with the surface "a" in the system lexicon
+    pub n_sys: u32,
+    /// rows with the surface "a" in the user lexicon (0 = no user lexicon)
+    pub n_user: u32,
+    /// rows with other surfaces placed before the homographs (shifts the word ids)
+    pub before: u32,
+    /// a second surface with this many homographs after them ("b")
+    pub n_second: u32,
+    pub cheap: u32,
+    pub salt: u16,
+    /// C05 only: 0 = no further operation, 1 = write/read once more, 2 = clear the user lexicon, 3 = id mapping
+    pub op: u8,
+}
+
+impl HomographCase {
+    fn row(&self, surface: &str, i: u32, tag: &str) -> LexRow {
+        let salt = u32::from(self.salt);
+        LexRow {
+            surface: surface.into(),
+            left: ((i + salt) % 3) as u16,
+            right: ((i / 3 + salt) % 3) as u16,
+            cost: if i == self.cheap { -300 } else { 100 + ((i.wrapping_mul(13) + salt) % 17) as i16 },
+            feature: format!("{tag}{i}"),
+        }
+    }
+    pub fn sys_rows(&self) -> Vec<LexRow> {
+        let mut lex = vec![];
+        for k in 0..self.before {
+            lex.push(self.row(&format!("w{k}"), 1_000_000 + k, "W"));
+        }
+        for i in 0..self.n_sys {
+            lex.push(self.row("a", i, "S"));
+        }
+        for i in 0..self.n_second {
+            lex.push(self.row("b", 500_000 + i, "B"));
+        }
+        if lex.is_empty() {
+            lex.push(self.row("zz", 2_000_000, "Z"));
+        }
+        lex
+    }
+    pub fn user_rows(&self) -> Vec<LexRow> {
+        (0..self.n_user).map(|i| self.row("a", self.n_sys + i, "U")).collect()
+    }
+    pub fn to_tokcase(&self) -> TokCase {
+        let cats = vec![
+            CatSpec { name: "DEFAULT".into(), invoke: true, group: true, length: 0 },
+            CatSpec { name: "SPACE".into(), invoke: false, group: true, length: 0 },
+        ];
+        let unk = vec![
+            UnkRow { cat: 0, left: 0, right: 0, cost: 400, feature: "U,DEFAULT".into() },
+            UnkRow { cat: 1, left: 0, right: 0, cost: 10, feature: "U,SPACE".into() },
+        ];
+        let mut cells = vec![];
+        for r in 0..3u16 {
+            for l in 0..3u16 {
+                cells.push((r, l, ((i32::from(self.salt) + i32::from(r) * 7 + i32::from(l) * 3) % 41 - 20) as i16));
+            }
+        }
+        let user = self.user_rows();
+        TokCase {
+            spec: DictSpec {
+                chardef: CharDef { cats, ranges: vec![RangeSpec { start: 0x20, end: 0x20, cats: vec![1] }], style: 0 },
+                unk,
+                lex: self.sys_rows(),
+                conn: ConnSpec::Matrix(MatrixSpec { num_right: 3, num_left: 3, cells }),
+                csv_style: 0,
+            },
+            user: if user.is_empty() { None } else { Some(user) },
+            mapping: None,
+            opts: vec![TokOpts { ignore_space: false, max_grouping_len: 0, history: 0 }],
+            sentences: ["a", "ab", "ba", "w0a", "b", "xay", ""].iter().map(|s| s.to_string()).collect(),
+        }
+    }
+}
+
+fn homograph_count() -> impl Strategy<Value = u32> {
+    prop_oneof![6 => 252u32..=259, 2 => 65_533u32..=65_539, 1 => 510u32..=514, 2 => 0u32..=5]
+}
+
+pub fn homograph_case() -> BoxedStrategy<HomographCase> {
+    (homograph_count(), homograph_count(), prop_oneof![2 => Just(0u32), 2 => 1u32..=300, 1 => 65_000u32..=66_000], homograph_count(), any::<u32>(), any::<u16>(), 0u8..4)
+        .prop_map(|(n_sys, n_user, before, n_second, cheap, salt, op)| {
+            // keep at most one of the three counts in the 2^16 region (time)
+            let n_user = if n_sys > 60_000 { n_user.min(514) } else { n_user };
+            let n_second = if n_sys > 60_000 || n_user > 60_000 { n_second % 260 } else { n_second };
+            let total = (n_sys + n_user).max(1);
+            HomographCase { n_sys, n_user, before, n_second, cheap: cheap % total, salt, op }
+        })
+        .boxed()
+}
+
+/// C05: the ordinary round-trip oracle on dictionaries with 252-259 / 510-514 / 65533-65539 homographs.
+pub struct RoundTripScale;
+
+impl Sub for RoundTripScale {
+    type Case = HomographCase;
+    fn name(&self) -> &'static str {
+        "roundtrip_scale"
+    }
+    fn max_shrink_iters(&self) -> u32 {
+        100
+    }
+    fn strategy(&self, _tier: Tier) -> BoxedStrategy<HomographCase> {
+        homograph_case()
+    }
+    fn rule(&self) -> String {
+        "compact cases: the surface \"a\" has n_sys rows in the system lexicon and n_user rows in the user lexicon, a second surface n_second rows, each count drawn from 252..259 (6/11), 65533..65539, 510..514, 0..5; \
+         0 / 1..300 / 65000..66000 other rows before them; followed by nothing, a second write/read, clearing the user lexicon or an id mapping; oracle: the 'roundtrip' oracle (bytes, tokens, costs, later operations); \
+         non-trivial = a posting list of 255 or more ids; distinct = hash(case)".into()
+    }
+    fn check(&self, case: &HomographCase, ctx: &mut Ctx) -> Result<(), String> {
+        use crate::props::dictops::DOp;
+        let base = case.to_tokcase();
+        let ops = match case.op {
+            0 => vec![],
+            1 => vec![DOp::WriteRead],
+            2 => vec![DOp::ClearUser, DOp::WriteRead],
+            _ => vec![DOp::Map(vec![2, 1], vec![2, 1]), DOp::WriteRead],
+        };
+        let rt = crate::props::c05::RtCase { base, rt_at: 0, ops };
+        crate::props::c05::RoundTrip.check_case(&rt, ctx)?;
+        for (n, what) in [(case.n_sys, "system"), (case.n_user, "user"), (case.n_second, "second_surface")] {
+            ctx.label_if(n == 255, &format!("exactly_255_{what}"));
+            ctx.label_if(n == 256, &format!("exactly_256_{what}"));
+            ctx.label_if(n >= 65_535, &format!("ge_65535_{what}"));
+        }
+        if case.n_sys.max(case.n_user).max(case.n_second) >= 255 {
+            ctx.nontrivial(case);
+        }
+        ctx.sample(|| serde_json::to_value(case).unwrap());
+        Ok(())
+    }
+}
+
+/// C11: the ordinary row oracle on lexicons with that many homographs.
+pub struct RowsScale;
+
+impl Sub for RowsScale {
+    type Case = HomographCase;
+    fn name(&self) -> &'static str {
+        "rows_scale"
+    }
+    fn max_shrink_iters(&self) -> u32 {
+        100
+    }
+    fn strategy(&self, _tier: Tier) -> BoxedStrategy<HomographCase> {
+        homograph_case()
+    }
+    fn rule(&self) -> String {
+        "compact cases as in C05's roundtrip_scale (252..259 / 510..514 / 65533..65539 / 0..5 rows sharing the surface \"a\", a second surface \"b\", 0..66000 other rows before them), read as the system lexicon \
+         or (op odd) as a user lexicon; oracle: the 'rows' oracle — word_feature(k) of every kept row, and the lattice of each surface holds exactly the rows with that surface (ids, cost, row number); \
+         non-trivial = ≥ 255 rows share a surface; distinct = hash(case)".into()
+    }
+    fn check(&self, case: &HomographCase, ctx: &mut Ctx) -> Result<(), String> {
+        use crate::props::c11::{CsvCase, CsvRow, Rows};
+        // the row oracle is quadratic in the number of distinct surfaces: at most 400 other rows here
+        // (C05's roundtrip_scale keeps the large word-id offsets)
+        let capped = HomographCase { before: case.before.min(400), ..case.clone() };
+        let rows = capped.sys_rows();
+        let cc = CsvCase {
+            rows: rows
+                .into_iter()
+                .map(|r| CsvRow { surface: r.surface, left: r.left, right: r.right, cost: r.cost, tail: r.feature, quote_surface: false, blank_after: 0 })
+                .collect(),
+            num_right: 3,
+            num_left: 3,
+            final_newline: case.salt % 2 == 0,
+            leading_blank: false,
+            as_user: case.op % 2 == 1,
+        };
+        Rows.check_case(&cc, ctx)?;
+        let n = case.n_sys;
+        ctx.label_if(n == 255, "exactly_255_homographs");
+        ctx.label_if(n == 256, "exactly_256_homographs");
+        ctx.label_if(case.n_second == 255, "second_surface_exactly_255");
+        ctx.label_if(n >= 65_535, "ge_65535_homographs");
+        ctx.label_if(cc.as_user, "as_user_lexicon");
+        if n.max(case.n_second) >= 255 {
+            ctx.nontrivial(case);
+        }
+        ctx.sample(|| serde_json::to_value(case).unwrap());
+        Ok(())
+    }
+}
